@@ -59,6 +59,7 @@ def gen_def(rng, prof):
         d["vars"].append(["z", op("add", ctx("x"), lit(1))])
     d["vars"].append(["xs", lit([rng.randint(0, 9) for _ in range(rng.randint(0, 4))])])
     d["vars"].append(["n", lit(0)])
+    d["vars"].append(["d", lit({"a": rng.randint(0, 2), "b": "s"})])
     if rng.random() < prof.p_input:
         d["input"].append(["a", lit(rng.randint(0, 5))])
         if rng.random() < 0.5:
@@ -73,6 +74,8 @@ def gen_def(rng, prof):
             t["input"].append(["p", ctx(rng.choice(["x", "n"] + published[:2]))])
         if rng.random() < 0.2:
             t["input"].append(["q", lit({"k": [1, "v", None, True]})])
+        if rng.random() < 0.2:
+            t["input"].append(["da", {"ctxkey": "d", "k": "a"}])
         later = names[i + 1:]
         ntrans = 0
         if later or rng.random() < 0.5:
@@ -88,6 +91,7 @@ def gen_def(rng, prof):
                 tr["when"] = fn("completed")
             elif r < 0.65 + prof.p_cond_ctx:
                 tr["when"] = rng.choice([
+                    fn("result"), op("lt", {"ctxkey": "d", "k": "a"}, lit(2)),
                     op("lt", ctx("x"), lit(2)), op("eq", fn("result"), lit(1)),
                     op("and", fn("succeeded"), op("lt", ctx("n"), lit(3))),
                     {"not": fn("failed")}, op("eq", {"task_status": rng.choice(names)}, lit("succeeded")),
@@ -100,7 +104,15 @@ def gen_def(rng, prof):
                 else:
                     v = "v%d" % (len(published) + 1)
                 val = rng.choice([lit(rng.randint(0, 99)), fn("result"), ctx("x"),
-                                  op("add", ctx("x"), lit(1)), lit("w%d" % rng.randint(0, 9))])
+                                  op("add", ctx("x"), lit(1)), lit("w%d" % rng.randint(0, 9)),
+                                  lit({"a": rng.randint(3, 9)}), lit(None)])
+                if rng.random() < 0.15:
+                    v = "d"   # a dict published over a dict (merge_dicts recurses into it)
+                    val = lit({"a": rng.randint(3, 9)})
+                if v in ("x", "n"):
+                    # these are compared numerically elsewhere; keep them integers (YAQL orders
+                    # null and integers without raising, which the fragment does not model)
+                    val = rng.choice([lit(rng.randint(0, 9)), op("add", ctx("x"), lit(1))])
                 tr["publish"].append([v, val])
                 if v not in published:
                     published.append(v)
@@ -207,7 +219,7 @@ def gen_def(rng, prof):
         feats.add("output")
     # failing expression
     if rng.random() < prof.p_badexpr:
-        bad = rng.choice([ctx("nope"), op("add", ctx("y_undefined"), lit(1)), ctx("__state"),
+        bad = rng.choice([ctx("nope"), op("add", ctx("y_undefined"), lit(1)), ctx("__state"), {"ctxkey": "d", "k": "zz"},
                           {"item": "k"}, op("eq", ctx("nope2"), lit(1))])
         t = rng.choice(tasks)
         where = rng.choice(["input", "when", "publish", "items", "concurrency", "delay", "retry_when",
